@@ -110,28 +110,59 @@ func main() {
 			"reference / relation / area / traversal answers are compared as sets, FindFeatures as sequences",
 			"relation membership is acyclic in the menu (cycles belong to C15); points at E7 precision; polygon loops up to rotation",
 		},
-		QuickDeadline: 200e9, ThoroughDeadline: 25 * 60e9, Chunk: 32,
+		QuickDeadline: 200e9, ThoroughDeadline: 20 * 60e9, Chunk: 32,
 		// many worker processes on a shared machine: fewer GC cycles and GC threads per worker
 		WorkerEnv: []string{"GOGC=800", "GOMAXPROCS=2"},
 		Build: func(tier string) (kit.Space, string) {
 			blocks := ok.Blocks(slots, tier)
+			if tier == "thorough" {
+				// keep the thorough tier in budget (two world builds and two dumps
+				// per input): without the variants n1+n8 both-untagged, way C
+				// closed-untagged and relation Q way-A-twice, which add nothing to
+				// the differential beyond their siblings.
+				blocks[0].Radices[1], blocks[0].Radices[4], blocks[0].Radices[7] = 2, 3, 3
+				blocks[0].N = kit.Product(blocks[0].Radices)
+			}
 			return kit.FuncSpace{N: ok.Total(blocks), F: func(i int64) kit.Result {
 				var r kit.Result
-				sch, choice := ok.Locate(blocks, i)
+				blk, choice := ok.Locate(blocks, i)
+				sch := blk.Scheme
 				in := ok.Expand(slots, choice, sch)
+				var pbf []byte
+				if blk.ViaPBF {
+					var err error
+					if pbf, err = ok.PBF(in); err == nil {
+						in, err = ok.ReadBack(pbf)
+					}
+					if err != nil {
+						r.Violate("harness:pbf", "%v", err)
+						return r
+					}
+				}
 				r.Nontrivial = len(in.Ways)+len(in.Relations) > 0
 				r.Key = in.String()
 				if i%1009 == 0 {
 					r.Sample = map[string]string{"ids": sch.Name, "input": in.String()}
 				}
 				ids := ok.Expect(in).Universe
-				basic, err := ok.Basic(in, 1)
+				var basic b6.World
+				var comp b6.World
+				var err error
+				if blk.ViaPBF {
+					basic, err = ok.BasicFromPBF(pbf, 1)
+				} else {
+					basic, err = ok.Basic(in, 1)
+				}
 				if err != nil {
 					r.Violate("build-error:basic", "ids %s %s\ninput: %s\n%v", sch.Name, ok.ChoiceNames(slots, choice), in, err)
 					r.Outcome = "build-error"
 					return r
 				}
-				comp, err := ok.Compact(in, 1)
+				if blk.ViaPBF {
+					comp, err = ok.CompactFromPBF(pbf, 1)
+				} else {
+					comp, err = ok.Compact(in, 1)
+				}
 				if err != nil {
 					r.Violate("build-error:compact", "ids %s %s\ninput: %s\n%v", sch.Name, ok.ChoiceNames(slots, choice), in, err)
 					r.Outcome = "build-error"
@@ -153,7 +184,7 @@ func main() {
 				if len(diffs) > 0 {
 					byClass := map[string][]string{}
 					for _, d := range diffs {
-						for _, c := range classify(d, db, dc, basic) {
+						for _, c := range classify(d, db, dc, basic, in) {
 							byClass[c] = append(byClass[c], d)
 						}
 					}
@@ -193,7 +224,7 @@ func fields(s string) map[string]bool {
 // from the in-memory one. For reference-like queries it says which feature
 // types the compact world lacks or adds and whether a lacking referrer refers
 // directly or through a chain; one class per kind of lacking/added element.
-func classify(d string, db, dc wk.Dump, basic b6.World) []string {
+func classify(d string, db, dc wk.Dump, basic b6.World, in ok.Input) []string {
 	key := strings.SplitN(d, ":\n", 2)[0]
 	sec := wk.SectionClass(d)
 	a, b := db[key], dc[key]
@@ -254,7 +285,7 @@ func classify(d string, db, dc wk.Dump, basic b6.World) []string {
 		return out
 	case sec == "trav":
 		var out []string
-		for _, x := range strings.Split(travDelta(a, b), ",") {
+		for _, x := range strings.Split(travDelta(a, b, basic, in), ",") {
 			out = append(out, query+":"+x)
 		}
 		return out
@@ -341,10 +372,10 @@ func directness(basic b6.World, referrer, subject string) string {
 // world stops earlier; unmatched segments are reported as lacking/added, with
 // the special case of a closed path traversed from its closing point, where
 // the origin may be reported as index 0 or as the last index.
-func travDelta(a, b string) string {
+func travDelta(a, b string, basic b6.World, in ok.Input) string {
 	type seg struct {
-		path         string
-		first, last  int
+		path        string
+		first, last int
 	}
 	parse := func(s string) []seg {
 		var out []seg
@@ -382,7 +413,7 @@ func travDelta(a, b string) string {
 		if y, ok := mb[k]; ok {
 			switch {
 			case abs(y.last-y.first) < abs(x.last-x.first):
-				out["compact-stops-earlier"] = true
+				out["compact-stops-earlier-"+stopKind(basic, in, y.path, y.last)] = true
 			case abs(y.last-y.first) > abs(x.last-x.first):
 				out["compact-stops-later"] = true
 			}
@@ -420,4 +451,37 @@ func hasOriginNot[T any](m map[string]T, path string, first int) bool {
 		}
 	}
 	return false
+}
+
+// stopKind describes the point at which the compact traversal stopped although
+// the in-memory one went on: a point of a way that the build dropped as
+// invalid, an untagged point, or something else.
+func stopKind(basic b6.World, in ok.Input, path string, index int) string {
+	pf, isPath := basic.FindFeatureByID(b6.FeatureIDFromString("/" + path)).(b6.PhysicalFeature)
+	if !isPath || index < 0 || index >= pf.GeometryLen() {
+		return "at-unknown-point"
+	}
+	id := pf.Reference(index).Source()
+	ways := 0
+	for _, w := range in.Ways {
+		for i, n := range w.Nodes {
+			if uint64(n) == id.Value && !(i == len(w.Nodes)-1 && w.Nodes[0] == n && i > 0) {
+				ways++
+				break
+			}
+		}
+	}
+	paths := 0
+	fs := basic.FindReferences(id, b6.FeatureTypePath)
+	for fs.Next() {
+		paths++
+	}
+	point := basic.FindFeatureByID(id)
+	switch {
+	case ways > paths:
+		return "at-point-of-a-dropped-way"
+	case point != nil && len(point.AllTags()) == 1:
+		return "at-untagged-point-on-one-path"
+	}
+	return "at-other-point"
 }
